@@ -101,10 +101,41 @@ var _ = digest.SpecHashSlot // spec functions used by the contracts below
 
 // Garbage collection of stale checkpoints: a deletion request is issued only for an entry that
 // is older than the limit and, when the newest entry must be kept, not for the newest one.
+// What a database holds for the checkpoint name and the ids asked (abstract; assumed not to change
+// during one scan of GetCheckpoint): offset, modification time and run id of the record ("?" / -1: none).
+func SpecCpOff(db int) int64   { panic("abstract spec function") }
+func SpecCpMtime(db int) int64 { panic("abstract spec function") }
+func SpecCpRun(db int) string  { panic("abstract spec function") }
+
+//@ spec SpecCpOff abstract
+//@ spec SpecCpMtime abstract
+//@ spec SpecCpRun abstract
+
 //@ func fetchCheckpoint(runIds, cli, db, checkpointName) (cpi, err)
 //@   trusted abstract bookkeeping store
 //@   modifies curDb
 //@   ensures found: err == nil ==> cpi != nil && fresh(cpi)
+//@   ensures content: err == nil ==> cpi.Offset == SpecCpOff(db) && cpi.Mtime == SpecCpMtime(db) && cpi.RunId == SpecCpRun(db)
+
+//@ func getDbMap(cli) (mp, err)
+//@   trusted abstract bookkeeping store: the databases of the target (INFO keyspace), numbered from 0
+//@   modifies curDb
+//@   ensures numbered_from_zero: err == nil ==> (forall d int32 :: haskey(mp, d) ==> d >= 0)
+
+// ---- a start resumes from the record that reaches furthest over ALL databases of the target, read
+// from the database that holds it (C02: the position on restart; C07; C17) ----
+//@ func body:GetCheckpoint
+//@   arith int
+//@   properties C02 C07 C17
+//@   ghost var curDb mathint
+//@   requires nonnil: cli != nil
+//@   modifies heap, curDb
+//@   ensures the_position_is_the_furthest_any_database_holds [local]: result2 == nil ==> (forall d int32 :: haskey(mp, d) ==> SpecCpOff(int(d)) <= result0.Offset)
+//@   ensures it_is_the_record_of_the_database_reported [local]: result2 == nil && result1 >= 0 ==> haskey(mp, int32(result1)) && result0.Offset == SpecCpOff(result1) && result0.RunId == SpecCpRun(result1)
+//@   ensures no_record_no_database: result2 == nil && result1 < 0 ==> result1 == 0 - 1 && result0.RunId == "?"
+//@   loop 1:
+//@     invariant furthest_so_far: cpi != nil && fresh(cpi) && (forall d int32 :: visited(d) ==> SpecCpOff(int(d)) <= cpi.Offset)
+//@     invariant unmixed: (cpi.Offset == 0 - 1 && cpi.RunId == "?" && cpi.Mtime == 0) || (visited(recDb) && haskey(mp, recDb) && cpi.Offset == SpecCpOff(int(recDb)) && cpi.RunId == SpecCpRun(int(recDb)) && cpi.Mtime == SpecCpMtime(int(recDb)))
 
 //@ func DelStaleCheckpoint
 //@   arith int
